@@ -17,25 +17,40 @@ def params : Params :=
 
 def flagsOf (k : Key) : Nat := k.other + (if k.sep then 1 else 0) + (if k.revoke then 128 else 0)
 
-def mkKey (mat flags tag : Nat) : Key :=
+def mkKey (mat flags tag owner : Nat) : Key :=
   let sep := flags % 2 == 1
   let rev := (flags / 128) % 2 == 1
   { mat := mat, sep := sep, revoke := rev,
-    other := flags - (if sep then 1 else 0) - (if rev then 128 else 0), tag := tag }
+    other := flags - (if sep then 1 else 0) - (if rev then 128 else 0), tag := tag, owner := owner }
 
+/-- `<mat>.<flags>.<tag>` (owner ".") or `<mat>.<flags>.<tag>@<n>` (owner name number n). -/
 def parseRef (s : String) : Option Key :=
-  match s.splitOn "." with
-  | [m, f, t] => do
+  let (body, owner) := match s.splitOn "@" with
+    | [b, o] => (b, o.toNat?)
+    | _ => (s, some 0)
+  match body.splitOn ".", owner with
+  | [m, f, t], some o => do
     let m ← m.toNat?
     let f ← f.toNat?
     let t ← t.toNat?
-    some (mkKey m f t)
-  | _ => none
+    some (mkKey m f t o)
+  | _, _ => none
 
 def parseRefs (s : String) : Option (List Key) :=
   if s == "-" then some [] else (s.splitOn ",").mapM parseRef
 
-def refStr (k : Key) : String := s!"{k.mat}.{flagsOf k}.{k.tag}"
+def refStr (k : Key) : String :=
+  if k.owner == 0 then s!"{k.mat}.{flagsOf k}.{k.tag}" else s!"{k.mat}.{flagsOf k}.{k.tag}@{k.owner}"
+
+/-- `x=<keys|->:<signers|->;...`: the other RRsets of the answer section. -/
+def parseExtras (s : String) : Option (List Extra) :=
+  (s.splitOn ";").mapM fun e =>
+    match e.splitOn ":" with
+    | [ks, ss] => do
+      let ks ← parseRefs ks
+      let ss ← parseRefs ss
+      some { keys := ks, signers := ss }
+    | _ => none
 
 def insertBy {α : Type} (le : α → α → Bool) (a : α) : List α → List α
   | [] => [a]
@@ -107,19 +122,27 @@ def parseFaults (s : String) : Option Faults :=
 def outcomeStr : Outcome → String
   | .ok => "ok" | .verr => "verr" | .perr => "perr"
 
-def doRun (st : State) (fs sg fl cr : String) : State × String :=
+def doRun (st : State) (fs sg fl cr : String) (rest : List String := []) : State × String :=
+  let xs : Option (List Extra) :=
+    match rest.find? (fun w => w.startsWith "x=") with
+    | some w => parseExtras (w.drop 2).toString
+    | none => some []
   let fetch : Option (Option Fetch) :=
     if fs == "none" then some none else
-    match parseRefs fs, parseRefs sg with
-    | some ks, some ss => some (some { keys := ks, signers := ss })
-    | _, _ => none
+    match parseRefs fs, parseRefs sg, xs with
+    | some ks, some ss, some xs => some (some { keys := ks, signers := ss, extras := xs })
+    | _, _, _ => none
   let crash : Option (Option Nat) := if cr == "-" then some none else cr.toNat?.map some
   match fetch, parseFaults fl, crash with
   | some f, some fl, some cr =>
     let r := runResult params st.cfg st.sys f fl
     let sys' := step params st.cfg st.sys (.run f fl cr)
+    let preStr := match r.pre with
+      | none => "none"
+      | some [] => "-"
+      | some l => ",".intercalate ((sortBy keyLe l).map refStr)
     let pre := match cr with
-      | none => s!"res={outcomeStr r.outcome} "
+      | none => s!"res={outcomeStr r.outcome} pre={preStr} "
       | some _ => ""
     ({ st with sys := sys' }, pre ++ obs sys')
   | _, _, _ => (st, "bad-op")
@@ -158,6 +181,10 @@ def step (st : State) (w : List String) : State × String :=
       let st' := { st with sys := AutoTA.step params st.cfg st.sys (.tick dt) }
       (st', obs st'.sys)
     | none => (st, "bad-op")
+  | ["autota", "boot"] =>
+    if !st.started then (st, "bad-op") else
+    let st' := { st with sys := AutoTA.step params st.cfg st.sys .boot }
+    (st', obs st'.sys)
   | ["autota", "restart"] =>
     if !st.started then (st, "bad-op") else
     let st' := { st with sys := AutoTA.step params st.cfg st.sys .restart }
@@ -176,13 +203,24 @@ def step (st : State) (w : List String) : State × String :=
       let st' := { st with sys := AutoTA.step params st.cfg st.sys (.damage d) }
       (st', obs st'.sys)
     | none => (st, "bad-op")
+  | "autota" :: "probe" :: fs :: sg :: rest =>
+    -- a validated client lookup of ". DNSKEY" with the current live trust set
+    if !st.started then (st, "bad-op") else
+    let xs : Option (List Extra) :=
+      match rest.find? (fun w => w.startsWith "x=") with
+      | some w => parseExtras (w.drop 2).toString
+      | none => some []
+    match st.sys.proc, parseRefs fs, parseRefs sg, xs with
+    | some live, some ks, some ss, some xs =>
+      (st, if validates live { keys := ks, signers := ss, extras := xs } then "answered ad=t" else "refused")
+    | _, _, _, _ => (st, "bad-op")
   | ["autota", "killrun", fs, sg, k] =>
     -- a new process runs the refresh and is SIGKILLed on entry to its (k+1)-th rename
     if !st.started then (st, "bad-op") else
     let st' := { st with sys := AutoTA.step params st.cfg st.sys .restart }
     doRun st' fs sg "-" k
-  | "autota" :: "run" :: fs :: sg :: fl :: cr :: _ =>
-    if !st.started then (st, "bad-op") else doRun st fs sg fl cr
+  | "autota" :: "run" :: fs :: sg :: fl :: cr :: rest =>
+    if !st.started then (st, "bad-op") else doRun st fs sg fl cr rest
   | _ => (st, "bad-op")
 
 end Driver.C09
